@@ -116,6 +116,9 @@ func (self Value) GetByPath(pathes ...Path) Value {
 	var err error
 
 	for i, path := range pathes {
+		if e := checkPathType(path, tt); e != "" {
+			return errValue(meta.ErrDismatchType, e, nil)
+		}
 		switch path.t {
 		case PathFieldId:
 			id := path.id()
